@@ -18,8 +18,8 @@ Inductive pc :=
 | PSawExists                     (* exists() returned true; about to open+read *)
 | PRead (c : content)            (* holds the content it read; about to decide *)
 | PRemove                        (* decided stale/orphaned; about to remove_file *)
-| PCreate                        (* about to create_new *)
-| PWrite                         (* created the file; about to write pid:ts *)
+| PCreate                        (* about to create the lock file with its content (write temp + hard_link) *)
+| PWrite                         (* unused since the lock is created with its content; kept for the old protocol *)
 | PCritical                      (* lock acquired: performing the mutating command *)
 | PDropCheck                     (* Drop: about to call path.exists() *)
 | PDropRemove                    (* Drop: exists() was true; about to remove_file *)
@@ -89,7 +89,7 @@ Definition step (w : world) (p : pid) : option world :=
         end
     | PCreate =>
         match lock w with
-        | None => Some (upd w p PWrite (Some CEmpty))       (* create_new succeeded *)
+        | None => Some (upd w p PCritical (Some (CValid p (now w))))   (* hard_link of the written temp file *)
         | Some _ => Some (finish w p false (lock w))        (* EEXIST: error exit *)
         end
     | PWrite =>
@@ -130,7 +130,7 @@ Fixpoint exec (w : world) (es : list ev) : option world :=
   | e :: es' => match exec1 w e with Some w' => exec w' es' | None => None end
   end.
 
-(* a process holds the lock from the successful create_new until its Drop has run *)
+(* a process holds the lock from the successful creation until its Drop has run *)
 Definition holding_pc (c : pc) : bool :=
   match c with PWrite | PCritical | PDropCheck | PDropRemove => true | _ => false end.
 Definition critical_pc (c : pc) : bool := match c with PCritical => true | _ => false end.
